@@ -18,6 +18,7 @@
 #include "hcommon.h"
 #include <algorithm>
 #include <iostream>
+#include <functional>
 #include <chrono>
 using namespace SimTK;
 
@@ -126,20 +127,51 @@ struct Model {
 static const char* MOB[] = {"Pin", "Ball", "Slider", "Universal", "Free", "Cylinder", "Gimbal", "Weld", "LoneParticle", "Planar", "Translation", "Screw"};
 static int g_informative[NINTEG][NMETRIC], g_cases[NINTEG], g_converge[NINTEG];
 
+// ---- scenario 6: the dissipative-element zoo.  One element type and one of its regimes per case, on a tiny model whose initial
+// conditions drive the coordinate INTO that regime; the regime counts as visited only if the trajectory shows it (D regime.*).
+static const char* ZOO[] = {
+    "MobilityLinearDamper.moving", "MobilityLinearStop.lower", "MobilityLinearStop.upper", "MobilityLinearStop.both",
+    "TwoPointLinearDamper.moving", "LinearBushing.damped", "GlobalDamper.moving", "CompliantContact.Hertz.lowDissipation",
+    "HuntCrossleyForce.contact", "SmoothSphereHalfSpace.contact", "ExponentialSpring.contact", "Custom.mobilityDamper",
+    "CompliantContact.mesh", "ElasticFoundationForce.contact"};
+static const int NZOO = 14;
+static const uint64_t ZOO_FLAG = 1ull << 62;
+static int g_regime[NZOO];
+// worst report-to-report energy increase / scale and worst |E + dissipated - initial| / scale measured on the clean tree
+// (see notes/C11.md); bounds are these x 10
+static const double ZOO_UP = 1, ZOO_ACCOUNT = 1;   // ZOO-CONSTANTS
+
+class ZooMobilityDamper : public Force::Custom::Implementation {
+public:
+    ZooMobilityDamper(const MobilizedBody& mb, Real c) : mb(mb), c(c) {}
+    void calcForce(const State& st, Vector_<SpatialVec>&, Vector_<Vec3>&, Vector& mobilityForces) const override {
+        mb.applyOneMobilityForce(st, MobilizerUIndex(0), -c * mb.getOneU(st, MobilizerUIndex(0)), mobilityForces);
+    }
+    Real calcPotentialEnergy(const State&) const override { return 0; }
+    bool dependsOnlyOnPositions() const override { return false; }
+private:
+    MobilizedBody mb; Real c;
+};
+
 static void runCase(uint64_t caseSeed) {
     vh::Rng r(caseSeed);
     if (std::getenv("C11_TRACE")) std::fprintf(stderr, "case %llu\n", (unsigned long long)caseSeed);
-    const int scn = r.below(6);
-    const int integ = r.below(NINTEG);
+    const bool zoo = (caseSeed & ZOO_FLAG) != 0;
+    const int zc = zoo ? (int)((caseSeed >> 40) & 0xff) % NZOO : -1;
+    const int scn = zoo ? 6 : r.below(6);
+    int integ_ = zoo ? r.below(6) : r.below(NINTEG);                   // zoo: the six higher-order methods
+    if (std::getenv("C11_FORCE_INTEG")) integ_ = std::atoi(std::getenv("C11_FORCE_INTEG"));   // debugging aid only
+    const int integ = integ_;
     // accuracies 1e-3 .. 1e-8, weighted towards those where the bounds bite; first-order methods 1e-4 .. 1e-6
     static const int ACC_GENERAL[12] = {3, 4, 5, 5, 6, 6, 6, 7, 7, 7, 8, 8};
     static const int ACC_FIRST[5] = {4, 5, 5, 6, 6};
     int accExp = integ >= 6 ? ACC_FIRST[r.below(5)] : ACC_GENERAL[r.below(12)];
+    if (zoo) accExp = 5 + r.below(3);                               // zoo: 1e-5 .. 1e-7, where the tolerances bite
     if (integ == 3 && accExp > 6) accExp = 6;                       // RungeKutta2 below 1e-6 costs up to seconds per trajectory
     const int accExp2Max = integ == 6 ? 7 : (integ == 7 || integ == 3) ? 6 : 8;   // SemiExplicitEuler2 and RungeKutta2 are the expensive ones     // tightest accuracy affordable for the second run
     const double acc = std::pow(10.0, -accExp);
     const bool floating = scn == 2;
-    const int nb = (scn >= 4) ? 1 + r.below(2) : 1 + r.below(5);
+    const int nb = zoo ? 0 : (scn >= 4) ? 1 + r.below(2) : 1 + r.below(5);
 
     Model M; MultibodySystem& sys = M.sys; SimbodyMatterSubsystem& matter = M.matter;
     M.bodies.push_back(matter.Ground()); M.type.push_back(-1);
@@ -172,6 +204,125 @@ static void runCase(uint64_t caseSeed) {
         default: mb = MobilizedBody::Weld(par, XPF, body, XBM); break;
         }
         M.bodies.push_back(mb); M.type.push_back(type); M.tags.push_back(std::string("mob.") + MOB[type]);
+    }
+    // ---- zoo model
+    std::function<void(State&)> zooIC; std::function<bool(const State&)> zooProbe;   // probe: is the regime active in this state?
+    std::function<double(const State&)> zooDissipated;
+    bool zooLower = false, zooUpper = false;
+    ContactTrackerSubsystem* tracker = nullptr; CompliantContactSubsystem* contact = nullptr; bool contactHigh = false;
+    if (zoo) {
+        auto rigid = [&]() { Real m = r.range(0.8, 2.5); return Body::Rigid(MassProperties(m, rv(r, 0.15), m * UnitInertia(r.range(0.05, 0.2), r.range(0.05, 0.2), r.range(0.05, 0.2)))); };
+        auto addBodyZ = [&](MobilizedBody mb, const char* tag) { M.bodies.push_back(mb); M.type.push_back(0); M.tags.push_back(tag); };
+        const bool slider = r.coin();
+        auto oneDof = [&]() {
+            Transform XPF = rX(r, r.below(3)), XBM = rX(r, r.below(3));
+            if (slider) addBodyZ(MobilizedBody::Slider(matter.Ground(), XPF, rigid(), XBM), "mob.Slider");
+            else addBodyZ(MobilizedBody::Pin(matter.Ground(), XPF, rigid(), XBM), "mob.Pin");
+        };
+        auto sphereSetup = [&](double& R) {   // a free sphere (origin = centre) above the plane y = 0, falling
+            R = r.range(0.2, 0.4);
+            Real m = r.range(0.8, 2.5);
+            addBodyZ(MobilizedBody::Free(matter.Ground(), Transform(), Body::Rigid(MassProperties(m, Vec3(0), m * UnitInertia::sphere(R))), Transform()), "mob.Free");
+            Force::UniformGravity(M.forces, matter, Vec3(0, -r.range(4, 10), 0));
+            const double y0 = R + r.range(0.02, 0.1), vy = -r.range(0.8, 2.0), R0 = R;
+            zooIC = [=, &M](State& st) { M.bodies[1].setQToFitTranslation(st, Vec3(0, y0, 0)); M.bodies[1].setUToFitLinearVelocity(st, Vec3(0, vy, 0)); };
+            zooProbe = [=, &M](const State& st) { return M.bodies[1].getBodyOriginLocation(st)[1] < R0 && std::abs(M.bodies[1].getBodyOriginVelocity(st)[1]) > 1e-3; };
+        };
+        const Transform planeUp(Rotation(-Pi / 2, ZAxis), Vec3(0));      // half-space x>0 of its own frame -> y<0 in Ground
+        switch (zc) {
+        case 0: case 11: {
+            oneDof();
+            Force::MobilityLinearSpring(M.forces, M.bodies[1], MobilizerQIndex(0), r.range(5, 40), 0);
+            if (zc == 0) Force::MobilityLinearDamper(M.forces, M.bodies[1], MobilizerUIndex(0), r.range(0.3, 3));
+            else Force::Custom(M.forces, new ZooMobilityDamper(M.bodies[1], r.range(0.3, 3)));
+            const double q0 = r.signedMag(0.3, 0.8), u0 = r.signedMag(0.5, 2);
+            zooIC = [=, &M](State& st) { M.bodies[1].setOneQ(st, 0, q0); M.bodies[1].setOneU(st, 0, u0); };
+            zooProbe = [&M](const State& st) { return std::abs(M.bodies[1].getOneU(st, 0)) > 1e-3; };
+            break; }
+        case 1: case 2: case 3: {
+            oneDof();
+            const double qLow = -r.range(0.3, 0.5), qHigh = r.range(0.3, 0.5);
+            const double d = zc == 3 ? r.range(0.02, 0.08) : r.range(0.15, 0.8);
+            Force::MobilityLinearStop(M.forces, M.bodies[1], MobilizerQIndex(0), r.range(300, 900), d, qLow, qHigh);
+            const double q0 = zc == 1 ? qLow + 0.15 : zc == 2 ? qHigh - 0.15 : 0, u0 = zc == 1 ? -r.range(1.5, 3) : r.range(1.5, 3) * (zc == 3 ? 1.5 : 1);
+            zooIC = [=, &M](State& st) { M.bodies[1].setOneQ(st, 0, q0); M.bodies[1].setOneU(st, 0, u0); };
+            zooProbe = [=, &M, &zooLower, &zooUpper](const State& st) {
+                const double q = M.bodies[1].getOneQ(st, 0), qd = M.bodies[1].getOneU(st, 0);
+                if (q < qLow && std::abs(qd) > 1e-3) zooLower = true;
+                if (q > qHigh && std::abs(qd) > 1e-3) zooUpper = true;
+                return zc == 1 ? zooLower : zc == 2 ? zooUpper : (zooLower && zooUpper); };
+            break; }
+        case 4: {
+            oneDof();
+            const Vec3 pb = rv(r, 0.3), pg = rv(r, 1.0) + Vec3(0, 1.5, 0);
+            Force::TwoPointLinearSpring(M.forces, matter.Ground(), pg, M.bodies[1], pb, r.range(10, 50), r.range(0.5, 1.5));
+            Force::TwoPointLinearDamper(M.forces, matter.Ground(), pg, M.bodies[1], pb, r.range(0.5, 4));
+            const double u0 = r.signedMag(1, 2.5);
+            zooIC = [=, &M](State& st) { M.bodies[1].setOneQ(st, 0, 0.2); M.bodies[1].setOneU(st, 0, u0); };
+            zooProbe = [&M](const State& st) { return std::abs(M.bodies[1].getOneU(st, 0)) > 1e-3; };
+            break; }
+        case 5: {
+            Transform XPF = rX(r, r.below(3)), XBM = rX(r, r.below(3));
+            addBodyZ(MobilizedBody::Free(matter.Ground(), XPF, rigid(), XBM), "mob.Free");
+            Vec6 k, c; for (int j = 0; j < 3; ++j) { k[j] = r.range(40, 120); k[3 + j] = r.range(100, 400); c[j] = r.range(0.5, 4); c[3 + j] = r.range(1, 8); }
+            M.bushings.push_back(Force::LinearBushing(M.forces, matter.Ground(), XPF, M.bodies[1], XBM, k, c));
+            Vector u0(6); for (int j = 0; j < 6; ++j) u0[j] = r.range(-0.8, 0.8);
+            zooIC = [=, &M](State& st) { for (int j = 0; j < 6; ++j) M.bodies[1].setOneU(st, j, u0[j]); };
+            zooProbe = [&M](const State& st) { return M.bodies[1].getBodyVelocity(st).norm() > 1e-3; };
+            zooDissipated = [&M](const State& st) { return M.bushings[0].getDissipatedEnergy(st); };
+            break; }
+        case 6: {
+            oneDof();
+            addBodyZ(MobilizedBody::Pin(M.bodies[1], rX(r, 2), rigid(), rX(r, 1)), "mob.Pin");
+            Force::MobilityLinearSpring(M.forces, M.bodies[1], MobilizerQIndex(0), r.range(5, 40), 0);
+            Force::MobilityLinearSpring(M.forces, M.bodies[2], MobilizerQIndex(0), r.range(5, 40), 0);
+            Force::GlobalDamper(M.forces, matter, r.range(0.2, 2));
+            const double u0 = r.signedMag(0.5, 2), u1 = r.signedMag(0.5, 2);
+            zooIC = [=, &M](State& st) { M.bodies[1].setOneQ(st, 0, 0.3); M.bodies[1].setOneU(st, 0, u0); M.bodies[2].setOneU(st, 0, u1); };
+            zooProbe = [&M](const State& st) { return std::abs(M.bodies[1].getOneU(st, 0)) + std::abs(M.bodies[2].getOneU(st, 0)) > 1e-3; };
+            break; }
+        case 7: case 12: {   // CompliantContactSubsystem: Hertz sphere (7) or triangle-mesh sphere = elastic foundation (12)
+            double R; sphereSetup(R);
+            tracker = new ContactTrackerSubsystem(sys); contact = new CompliantContactSubsystem(sys, *tracker);
+            contact->setTrackDissipatedEnergy(true);
+            const double c = r.range(0.01, 0.05);
+            matter.Ground().updBody().addContactSurface(planeUp, ContactSurface(ContactGeometry::HalfSpace(), ContactMaterial(r.range(2e5, 2e6), c, 0, 0, 0)));
+            if (zc == 7) M.bodies[1].updBody().addContactSurface(Transform(), ContactSurface(ContactGeometry::Sphere(R), ContactMaterial(r.range(2e5, 2e6), c, 0, 0, 0)));
+            else M.bodies[1].updBody().addContactSurface(Transform(), ContactSurface(ContactGeometry::TriangleMesh(PolygonalMesh::createSphereMesh(R, 2)), ContactMaterial(r.range(2e5, 2e6), c, 0, 0, 0), 0.02));
+            zooDissipated = [contact](const State& st) { return contact->getDissipatedEnergy(st); };
+            break; }
+        case 8: case 13: {   // GeneralContactSubsystem: HuntCrossleyForce (8) / ElasticFoundationForce (13)
+            double R; sphereSetup(R);
+            GeneralContactSubsystem* gc = new GeneralContactSubsystem(sys);
+            ContactSetIndex set = gc->createContactSet();
+            const double c = r.range(0.01, 0.05);
+            if (zc == 8) {
+                gc->addBody(set, M.bodies[1], ContactGeometry::Sphere(R), Transform());
+                gc->addBody(set, matter.Ground(), ContactGeometry::HalfSpace(), planeUp);
+                HuntCrossleyForce hc(M.forces, *gc, set);
+                hc.setBodyParameters(ContactSurfaceIndex(0), r.range(2e5, 2e6), c, 0, 0, 0);
+                hc.setBodyParameters(ContactSurfaceIndex(1), r.range(2e5, 2e6), c, 0, 0, 0);
+            } else {
+                gc->addBody(set, M.bodies[1], ContactGeometry::TriangleMesh(PolygonalMesh::createSphereMesh(R, 2)), Transform());
+                gc->addBody(set, matter.Ground(), ContactGeometry::HalfSpace(), planeUp);
+                ElasticFoundationForce ef(M.forces, *gc, set);
+                ef.setBodyParameters(ContactSurfaceIndex(0), r.range(2e5, 2e6), c, 0, 0, 0);
+            }
+            break; }
+        case 9: {
+            double R; sphereSetup(R);
+            SmoothSphereHalfSpaceForce ss(M.forces);
+            ss.setStiffness(r.range(2e5, 2e6)); ss.setDissipation(r.range(0.01, 0.05)); ss.setStaticFriction(0); ss.setDynamicFriction(0); ss.setViscousFriction(0);
+            ss.setContactSphereBody(M.bodies[1]); ss.setContactSphereLocationInBody(Vec3(0)); ss.setContactSphereRadius(R);
+            ss.setContactHalfSpaceBody(matter.Ground()); ss.setContactHalfSpaceFrame(planeUp);
+            break; }
+        default: {  // 10 ExponentialSpringForce: a point of the body against the floor y = 0 (floor frame: z is the normal)
+            double R; sphereSetup(R);
+            ExponentialSpringParameters ep;   // defaults (viscosity > 0); frictionless
+            ExponentialSpringForce es(M.forces, Transform(Rotation(-Pi / 2, XAxis), Vec3(0)), M.bodies[1], Vec3(0, -R, 0), ep);
+            break; }
+        }
+        M.tags.push_back(std::string("zoo.") + ZOO[zc]);
     }
     // ---- optionally a lone particle (RBNodeLoneParticle: Translation on Ground, forward, identity frames, leaf), created
     //      after the other mobilizers (so after any quaternion slots) and tied to the model by a spring.  Its choices
@@ -230,7 +381,6 @@ static void runCase(uint64_t caseSeed) {
             M.tags.push_back("force.LinearBushing.damped");
         }
     }
-    ContactTrackerSubsystem* tracker = nullptr; CompliantContactSubsystem* contact = nullptr; bool contactHigh = false;
     if (scn == 5) {
         // spheres (body origin = centre) falling on the half-space y < 0; Hunt-Crossley dissipation, no friction
         tracker = new ContactTrackerSubsystem(sys); contact = new CompliantContactSubsystem(sys, *tracker);
@@ -272,6 +422,7 @@ static void runCase(uint64_t caseSeed) {
     };
     vh::Rng stateRng(r.next());
     setState(s, stateRng);
+    if (zoo && zooIC) zooIC(s);
     // ---- workless constraints, built for the chosen initial configuration
     int ncons = 0;
     if (scn == 1) {
@@ -312,8 +463,9 @@ static void runCase(uint64_t caseSeed) {
     }
 
     // ---- simulate, sampling energy and momentum at report times
-    const double T = r.range(1.0, 2.5);
-    const int NREP = 25;
+    const double T = zoo ? r.range(0.8, 1.6) : r.range(1.0, 2.5);
+    const int NREP = std::getenv("C11_NREP") ? std::atoi(std::getenv("C11_NREP")) : zoo ? 160 : 25;      // zoo: fine sampling, so that short regime visits (a stop contact) are seen
+    bool regimeSeen = false;
     struct Traj { std::vector<double> E, KE, PE, D; std::vector<SpatialVec> P; State fin; std::string fail; double maxR = 1; int steps = 0; };
     auto runSim = [&](double accuracy, Traj& tr, bool wantFinal) {
         std::unique_ptr<Integrator> ig(makeIntegrator(integ, sys));
@@ -326,6 +478,8 @@ static void runCase(uint64_t caseSeed) {
             double d = 0; for (auto& b : M.bushings) d += b.getDissipatedEnergy(st);
             if (contact) d += contact->getDissipatedEnergy(st);
             tr.D.push_back(d);
+            if (zoo && zooProbe && zooProbe(st)) regimeSeen = true;
+            if (std::getenv("C11_DUMPY")) std::fprintf(stderr, "   t=%.4f y=%.5f vy=%.4f E=%.6g steps=%d\n", st.getTime(), M.bodies[1].getBodyOriginLocation(st)[1], M.bodies[1].getBodyOriginVelocity(st)[1], tr.E.back(), ig->getNumStepsTaken());
             for (int i = 1; i <= nbAll; ++i) tr.maxR = std::max(tr.maxR, M.bodies[i].getBodyOriginLocation(st).norm());
         };
         try {
@@ -455,7 +609,20 @@ static void runCase(uint64_t caseSeed) {
         double up = 0; for (size_t i = 1; i < E.size(); ++i) up = std::max(up, E[i] - E[i - 1]);
         judge(M_MONOTONE, "energy_nonincreasing_with_dampers", "traj.monotone.", std::max(up, E.back() - E[0]) / (acc * T * scale));
     }
-    if (scn >= 4) {
+    if (scn == 6) {
+        vh::D(std::string("regime.") + ZOO[zc] + (regimeSeen ? ".active" : ".notVisited"));
+        if (regimeSeen) {
+            ++g_regime[zc];
+            double up = 0, drift = 0;
+            for (size_t i = 1; i < E.size(); ++i) up = std::max(up, E[i] - E[i - 1]);
+            up = std::max(up, E.back() - E[0]);
+            vh::P("energy_nonincreasing_dissipative_element", std::string("traj.zoo.monotone.") + ZOO[zc], up / scale, 10 * ZOO_UP);
+            if (zooDissipated || contact) {
+                for (size_t i = 0; i < E.size(); ++i) drift = std::max(drift, std::abs(E[i] + Dv[i] - E[0] - Dv[0]));
+                vh::P("energy_plus_dissipated_constant", std::string("traj.zoo.account.") + ZOO[zc], drift / scale, 10 * ZOO_ACCOUNT);
+            }
+        }
+    } else if (scn >= 4) {
         double drift = 0, up = 0;
         for (size_t i = 0; i < E.size(); ++i) { drift = std::max(drift, std::abs(E[i] + Dv[i] - E[0] - Dv[0])); if (i) up = std::max(up, Dv[i - 1] - Dv[i]); }
         if (scn == 5 && contactHigh) {
@@ -486,13 +653,19 @@ int main(int argc, char** argv) {
         vh::Rng top(a.seed * 1000003ull + 1111);
         for (long c = 0; c < a.n; ++c) {
             auto t0 = std::chrono::steady_clock::now();
-            runCase(top.next() >> 1);
+            // every 4th case is a zoo case, the element/regime classes taken in turn (class index and flag live in the seed)
+            if (c % 4 == 3) runCase(ZOO_FLAG | ((uint64_t)((c / 4) % NZOO) << 40) | (top.next() >> 24));
+            else runCase(top.next() >> 2);
             if (std::getenv("C11_TIME")) std::fprintf(stderr, "ms %.1f\n", std::chrono::duration<double, std::milli>(std::chrono::steady_clock::now() - t0).count());
         }
         if (a.n >= 200) {
             // coverage record: every integrator must have been judged by bounds that bite (see `uninformative.*` tags)
             vh::I("coverage").s(std::to_string((unsigned long long)a.seed)).i(a.n).emit();
             vh::O("coverage").i(0).emit();
+            for (int k = 0; k < NZOO; ++k) {
+                vh::P("regime_visited", std::string("traj.coverage.regime.") + ZOO[k], g_regime[k] > 0 ? 0 : 1, 0);
+                std::printf("D regimeCount.%s.%d\n", ZOO[k], g_regime[k]);
+            }
             for (int k = 0; k < NINTEG; ++k) {
                 // informative = judged by a bound that allows < 10 % of the scale, or by the accuracy-convergence ratio
                 int e = g_informative[k][M_ENERGY] + g_informative[k][M_ENERGYC], cv = g_converge[k];
